@@ -970,16 +970,16 @@ fn main() {
         }
         for (which, exe) in [("debug", dbg_exe.clone()), ("release", relbin.clone())] {
             let sql = sql.to_string();
-            probes.push((id, which, sql.clone(), *class, std::thread::spawn(move || stream::probe_in_child(&exe, &sql, 5000))));
+            probes.push((id, which, sql.clone(), *class, std::thread::spawn(move || stream::probe_in_child(&exe, &sql, 8000))));
         }
     }
     for (id, which, sql, class, h) in probes {
         let r = h.join().expect("probe thread");
         sum.evaluations += 1;
-        sum.count(&format!("hang_probe/{}", if r.is_some() { "returned" } else { "killed_after_5s" }));
-        let cj = json!({"sql": sql, "build": which, "outcome": r.clone().unwrap_or_else(|| "did not return within 5 s".into())});
+        sum.count(&format!("hang_probe/{}", if r.is_some() { "returned" } else { "killed_after_8s" }));
+        let cj = json!({"sql": sql, "build": which, "outcome": r.clone().unwrap_or_else(|| "did not return within 8 s".into())});
         match &r {
-            None => sum.finding(class.unwrap_or("statement-does-not-return"), id, format!("{} build: `{}` did not return within 5 s (killed)", which, sql), cj.clone()),
+            None => sum.finding(class.unwrap_or("statement-does-not-return"), id, format!("{} build: `{}` did not return within 8 s (killed)", which, sql), cj.clone()),
             Some(t) if t == "panic" => sum.finding("panic-unclassified", id, format!("{} build panicked on `{}`", which, sql), cj.clone()),
             _ => {}
         }
@@ -1024,9 +1024,8 @@ fn main() {
             sum.count("outcome/panic_release");
         }
         oracle(&mut sum, &ctx, id, c, &obs[i], &rel[i]);
-        if i % 997 == 0 || matches!(obs[i], Obs::Panic(_)) || obs[i] != rel[i] || args.only.is_some() {
-            log.log(id, json!({"case": format!("{:?}", c).chars().take(500).collect::<String>(), "debug": format!("{:?}", obs[i]), "release": format!("{:?}", rel[i])}));
-        }
+        // every case is printable from its id (a model/implementation disagreement is reported by id)
+        log.log(id, json!({"case": format!("{:?}", c).chars().take(400).collect::<String>(), "debug": format!("{:?}", obs[i]).chars().take(200).collect::<String>(), "release": format!("{:?}", rel[i]).chars().take(200).collect::<String>()}));
         if i % 4001 == 17 {
             sum.sample(json!({"case": format!("{:?}", c).chars().take(300).collect::<String>(), "debug": format!("{:?}", obs[i]), "release": format!("{:?}", rel[i])}));
         }
@@ -1039,7 +1038,7 @@ fn main() {
     let mut extra_items = Vec::new();
     for (j, (c, od, orl)) in extra.iter().enumerate() {
         extra_items.push(format!("({}, {}, {})", coq_case(c, &ctx), coq_obs(od), coq_obs(orl)));
-        if j % 499 == 0 {
+        {
             log.log(extra_base + j as u64, json!({"sql_arith_case": format!("{:?}", c), "debug": format!("{:?}", od), "release": format!("{:?}", orl)}));
         }
     }
